@@ -168,6 +168,32 @@ theorem C06_store_keys_distinct (H : Bytes → Bytes) (ops : List StoreOp) :
 example : (storeRun (fun _ => [9]) [] [.save .tableProfile [1] [10], .save .tableProfile [1] [20]]).get
     (ObjKind.tableProfile.pfx ++ [1]) = some [20] := by decide
 
+/-! ### the transactional store (`objbadger.Txn`): staged, read through, committed -/
+
+/-- Objects saved through a transaction and committed - in one commit or with partial commits
+    anywhere in between - leave the database exactly as the same `Save*` / `Delete*` calls on a plain
+    store: every key holds the content its last save was GIVEN, later calls (and whatever the caller
+    does with its buffers between them) change nothing about it. -/
+theorem C06_txn_commit_is_the_direct_history (H : Bytes → Bytes) (s : ObjStore) (ops : List TxnOp) :
+    (txnStep H (txnRun H { base := s, staged := [] } ops) .commit).base = storeRun H s (TxnOp.storeOps ops) := by
+  rw [txnStep_commit_base, txnRun_view]
+  rfl
+
+/-- A read through the transaction sees what was just saved, before any commit. -/
+theorem C06_txn_reads_its_own_writes (H : Bytes → Bytes) (t : TxnStore) (kind : ObjKind) (sum content : Bytes) :
+    ((txnStep H t (.op (.save kind sum content))).view H).get ((StoreOp.save kind sum content).key H) = some content := by
+  rw [txnStep_view]
+  exact ObjStore.get_set_same _ _ content
+
+/-- Nothing reaches the database before the commit. -/
+theorem C06_txn_staged_is_invisible_outside (H : Bytes → Bytes) (t : TxnStore) (o : StoreOp) :
+    (txnStep H t (.op o)).base = t.base := rfl
+
+/-- non-vacuity: two commits saved through one transaction, then committed: both read back as given -/
+example : ((txnStep (fun c => c) (txnRun (fun c => c) { base := [], staged := [] }
+    [.op (.save .commit [] [1, 2]), .op (.save .commit [] [3, 4])]) .commit).base.get (ObjKind.commit.pfx ++ [1, 2]))
+    = some [1, 2] := by decide
+
 /-! table profile writer (Model/Profile.lean) -/
 
 /-- The profile writer succeeds exactly when every text it has to length-prefix with 16 bits (column
